@@ -3,7 +3,8 @@ package main
 // Domain C27: Hydrex (sdk/go/hydraidego/hydrex) through the real SDK, gRPC over bufconn and the
 // in-process gateway.  Histories over 2 index names × 3 domains × 5 keys × 4 values.
 //
-// ops:   case N
+// names travel as x<hex>; ops:   case N
+//        idle                     sleep past the 1 s idle timeout of the Hydrex swamps (they close, flush and reload)
 //        save I D k=v,k=v…|-      hydrex.Save(index name, domain, items)
 //        destroy I D
 //        core I D                 hydrex.GetCoreData, sorted by key
@@ -15,6 +16,7 @@ package main
 import (
 	"bufio"
 	"context"
+	"encoding/hex"
 	"fmt"
 	"math/rand"
 	"os"
@@ -27,11 +29,32 @@ import (
 
 func init() { Register("C27", Domain{Gen: c27Gen, Run: c27Run}) }
 
-func c27Items(rng *rand.Rand) string {
+// names travel as x<hex of the bytes> ("x" alone = the empty string)
+func c27Tok(s string) string { return "x" + hex.EncodeToString([]byte(s)) }
+func c27Untok(t string) (string, bool) {
+	if !strings.HasPrefix(t, "x") {
+		return "", false
+	}
+	b, err := hex.DecodeString(t[1:])
+	return string(b), err == nil
+}
+
+type c27Pool struct{ idx, doms, keys []string }
+
+var c27Plain = c27Pool{[]string{"i0", "i1"}, []string{"d0", "d1", "d2"}, []string{"k0", "k1", "k2", "k3", "k4"}}
+
+// case variants, non-ASCII, punctuation, long names: all legal swamp name parts, all distinct
+var c27Adversarial = c27Pool{[]string{"idx", "Idx"}, []string{"dom", "Dom", "dömain.hu", strings.Repeat("d", 180)},
+	[]string{"key", "Key", "KEY", "ключ", "k 0", "k.0-_", strings.Repeat("k", 200)}}
+
+// names that are NOT clean swamp name parts: empty, the wildcard, a part containing the separator (and its prefix)
+var c27Hostile = c27Pool{[]string{"i0"}, []string{"d0", "d1"}, []string{"a/b", "a", "", "*", "k0"}}
+
+func c27Items(rng *rand.Rand, p c27Pool) string {
 	var parts []string
-	for k := 0; k < 5; k++ {
+	for _, k := range p.keys {
 		if rng.Intn(5) < 2 {
-			parts = append(parts, fmt.Sprintf("k%d=v%d", k, rng.Intn(4)))
+			parts = append(parts, fmt.Sprintf("%s=v%d", c27Tok(k), rng.Intn(4)))
 		}
 	}
 	if len(parts) == 0 {
@@ -45,65 +68,95 @@ func c27Gen(rng *rand.Rand, tier string, w *bufio.Writer) {
 	if tier == "thorough" {
 		cases = 1200
 	}
-	dump := func() {
-		for i := 0; i < 2; i++ {
-			for d := 0; d < 3; d++ {
-				fmt.Fprintf(w, "core i%d d%d\n", i, d)
+	T := c27Tok
+	dump := func(p c27Pool) {
+		for _, i := range p.idx {
+			for _, d := range p.doms {
+				fmt.Fprintf(w, "core %s %s\n", T(i), T(d))
 			}
-			for k := 0; k < 5; k++ {
-				fmt.Fprintf(w, "index i%d k%d\n", i, k)
+			for _, k := range p.keys {
+				fmt.Fprintf(w, "index %s %s\n", T(i), T(k))
 			}
 		}
 	}
 	// corpus: DESIGN §9 F27 — save d {k ↦ a}; save d {k ↦ b} leaves a
 	fmt.Fprintln(w, "case 0")
-	fmt.Fprintln(w, "save i0 d0 k0=v0")
-	fmt.Fprintln(w, "core i0 d0")
-	fmt.Fprintln(w, "save i0 d0 k0=v1")
-	fmt.Fprintln(w, "core i0 d0")
-	fmt.Fprintln(w, "index i0 k0")
-	// corpus: shared key across domains, removal by save, destroy
+	fmt.Fprintf(w, "save %s %s %s=v0\n", T("i0"), T("d0"), T("k0"))
+	fmt.Fprintf(w, "core %s %s\n", T("i0"), T("d0"))
+	fmt.Fprintf(w, "save %s %s %s=v1\n", T("i0"), T("d0"), T("k0"))
+	fmt.Fprintf(w, "core %s %s\n", T("i0"), T("d0"))
+	fmt.Fprintf(w, "index %s %s\n", T("i0"), T("k0"))
+	// corpus: shared key across domains, removal by save, destroy, pure-removal save, save after destroy
 	fmt.Fprintln(w, "case 1")
-	fmt.Fprintln(w, "save i0 d0 k0=v0,k1=v1")
-	fmt.Fprintln(w, "save i0 d1 k0=v2")
-	fmt.Fprintln(w, "save i1 d0 k0=v3")
-	fmt.Fprintln(w, "index i0 k0")
-	fmt.Fprintln(w, "save i0 d0 k1=v1")
-	fmt.Fprintln(w, "index i0 k0")
-	fmt.Fprintln(w, "core i0 d0")
-	fmt.Fprintln(w, "destroy i0 d1")
-	fmt.Fprintln(w, "index i0 k0")
-	fmt.Fprintln(w, "core i0 d1")
-	fmt.Fprintln(w, "save i0 d0 -")
-	dump()
-	for c := 2; c < cases+2; c++ {
+	for _, l := range [][]string{{"save", "i0", "d0", "k0=v0,k1=v1"}, {"save", "i0", "d1", "k0=v2"}, {"save", "i1", "d0", "k0=v3"}, {"index", "i0", "k0"},
+		{"save", "i0", "d0", "k1=v1"}, {"index", "i0", "k0"}, {"core", "i0", "d0"}, {"destroy", "i0", "d1"}, {"index", "i0", "k0"}, {"core", "i0", "d1"},
+		{"save", "i0", "d1", "k0=v1,k2=v2"}, {"core", "i0", "d1"}, {"index", "i0", "k0"}, {"save", "i0", "d0", "-"}} {
+		line := l[0] + " " + T(l[1]) + " " + T(l[2])
+		if len(l) == 4 {
+			if l[3] == "-" {
+				line += " -"
+			} else {
+				var kv []string
+				for _, x := range strings.Split(l[3], ",") {
+					q := strings.SplitN(x, "=", 2)
+					kv = append(kv, T(q[0])+"="+q[1])
+				}
+				line += " " + strings.Join(kv, ",")
+			}
+		}
+		fmt.Fprintln(w, line)
+	}
+	dump(c27Plain)
+	// corpus: a key containing '/', then (separately) the empty key, each next to clean keys
+	fmt.Fprintln(w, "case 2")
+	fmt.Fprintf(w, "save %s %s %s=v1,%s=v2,%s=v1\n", T("i0"), T("d0"), T("a/b"), T("a"), T("k0"))
+	fmt.Fprintf(w, "core %s %s\n", T("i0"), T("d0"))
+	for _, k := range []string{"a/b", "a", "k0"} {
+		fmt.Fprintf(w, "index %s %s\n", T("i0"), T(k))
+	}
+	fmt.Fprintln(w, "case 3")
+	fmt.Fprintf(w, "save %s %s %s=v3,%s=v1\n", T("i0"), T("d0"), T(""), T("k0"))
+	fmt.Fprintf(w, "core %s %s\n", T("i0"), T("d0"))
+	fmt.Fprintf(w, "index %s %s\n", T("i0"), T("k0"))
+	for c := 4; c < cases+4; c++ {
 		fmt.Fprintf(w, "case %d\n", c)
+		pool := c27Plain
+		if c%3 == 0 {
+			pool = c27Adversarial
+		}
+		if c%20 == 7 {
+			pool = c27Hostile
+		}
 		last := map[string]string{}
 		for n := 8 + rng.Intn(18); n > 0; n-- {
-			i, d := rng.Intn(2), rng.Intn(3)
-			id := fmt.Sprintf("i%d d%d", i, d)
+			i, d := pool.idx[rng.Intn(len(pool.idx))], pool.doms[rng.Intn(len(pool.doms))]
+			id := T(i) + " " + T(d)
+			k := pool.keys[rng.Intn(len(pool.keys))]
 			switch x := rng.Intn(20); {
 			case x < 11:
-				items := c27Items(rng)
+				items := c27Items(rng, pool)
 				if prev, ok := last[id]; ok && rng.Intn(5) == 0 {
 					items = prev // an identical re-save
 				}
 				last[id] = items
 				fmt.Fprintf(w, "save %s %s\n", id, items)
 				fmt.Fprintf(w, "core %s\n", id)
-				fmt.Fprintf(w, "index i%d k%d\n", i, rng.Intn(5))
+				fmt.Fprintf(w, "index %s %s\n", T(i), T(k))
 			case x < 14:
 				delete(last, id)
 				fmt.Fprintf(w, "destroy %s\n", id)
 				fmt.Fprintf(w, "core %s\n", id)
-				fmt.Fprintf(w, "index i%d k%d\n", i, rng.Intn(5))
+				fmt.Fprintf(w, "index %s %s\n", T(i), T(k))
 			case x < 17:
 				fmt.Fprintf(w, "core %s\n", id)
 			default:
-				fmt.Fprintf(w, "index i%d k%d\n", i, rng.Intn(5))
+				fmt.Fprintf(w, "index %s %s\n", T(i), T(k))
+			}
+			if tier == "thorough" && rng.Intn(400) == 0 {
+				fmt.Fprintln(w, "idle") // let every swamp pass its 1 s idle timeout: close, flush, reload on next use
 			}
 		}
-		dump()
+		dump(pool)
 	}
 }
 
@@ -132,11 +185,21 @@ func c27Run(in *bufio.Scanner, w *bufio.Writer) {
 			}()
 			ctx, cancel := context.WithTimeout(context.Background(), 20*time.Second)
 			defer cancel()
-			idx := func(s string) string { return "c" + caseNo + s }
+			name := func(t string) string {
+				v, ok := c27Untok(t)
+				if !ok {
+					panic("bad token " + t)
+				}
+				return v
+			}
+			idx := func(t string) string { return "c" + caseNo + name(t) }
 			switch {
 			case f[0] == "case" && len(f) == 2:
 				caseNo = f[1]
 				fmt.Fprintln(w, line)
+			case f[0] == "idle" && len(f) == 1:
+				time.Sleep(1500 * time.Millisecond)
+				fmt.Fprintln(w, "ok")
 			case f[0] == "save" && len(f) == 4:
 				items := map[string]*hydrex.CoreData{}
 				if f[3] != "-" {
@@ -146,18 +209,18 @@ func c27Run(in *bufio.Scanner, w *bufio.Writer) {
 							fmt.Fprintln(w, "bad-op")
 							return
 						}
-						items[p[0]] = &hydrex.CoreData{Key: p[0], Value: p[1]}
+						items[name(p[0])] = &hydrex.CoreData{Key: name(p[0]), Value: p[1]}
 					}
 				}
-				hx.Save(ctx, idx(f[1]), f[2], items)
+				hx.Save(ctx, idx(f[1]), name(f[2]), items)
 				fmt.Fprintln(w, "ok")
 			case f[0] == "destroy" && len(f) == 3:
-				hx.Destroy(ctx, idx(f[1]), f[2])
+				hx.Destroy(ctx, idx(f[1]), name(f[2]))
 				fmt.Fprintln(w, "ok")
 			case f[0] == "core" && len(f) == 3:
 				var out []string
-				for _, cd := range hx.GetCoreData(ctx, idx(f[1]), f[2]) {
-					out = append(out, cd.Key+"="+cd.Value)
+				for _, cd := range hx.GetCoreData(ctx, idx(f[1]), name(f[2])) {
+					out = append(out, c27Tok(cd.Key)+"="+cd.Value)
 				}
 				sort.Strings(out)
 				if len(out) == 0 {
@@ -166,8 +229,8 @@ func c27Run(in *bufio.Scanner, w *bufio.Writer) {
 				fmt.Fprintln(w, "core "+strings.Join(out, ","))
 			case f[0] == "index" && len(f) == 3:
 				var out []string
-				for _, id := range hx.GetIndexData(ctx, idx(f[1]), f[2]) {
-					out = append(out, id.Domain)
+				for _, id := range hx.GetIndexData(ctx, idx(f[1]), name(f[2])) {
+					out = append(out, c27Tok(id.Domain))
 				}
 				sort.Strings(out)
 				if len(out) == 0 {
